@@ -64,6 +64,10 @@ def base_spec():
             "get": {"operationId": "getItem", "summary": "S " + INERT, "description": "OD " + INERT,
                     "parameters": [{"name": "id", "in": "path", "required": True, "description": "PD " + INERT, "schema": {"type": "string", "default": "dflt"}},
                                    {"name": "X-H", "in": "header", "description": "HD " + INERT, "schema": {"type": "string", "example": "ex"}}],
+                    "responses": {"200": {"description": "RD " + INERT, "content": {"application/json": {"schema": {"$ref": "#/components/schemas/Item"}}}}}},
+            # same response set as getItem (one shared response enum): its texts are varied independently of getItem's
+            "put": {"operationId": "replaceItem", "parameters": [{"name": "id", "in": "path", "required": True, "schema": {"type": "string"}}],
+                    "requestBody": {"required": True, "content": {"application/json": {"schema": {"$ref": "#/components/schemas/NewItem"}}}},
                     "responses": {"200": {"description": "RD " + INERT, "content": {"application/json": {"schema": {"$ref": "#/components/schemas/Item"}}}}}}}},
         "components": {"schemas": {
             "NewItem": {"type": "object", "properties": {"code": {"type": "string", "pattern": "^abc$"}, "label": {"type": "string", "default": "lb", "maxLength": 40},
@@ -71,7 +75,8 @@ def base_spec():
                                                          "ratio": {"type": "number", "default": "n/a"}, "on": {"type": "boolean", "default": "n/a"}}},
             "Item": {"type": "object", "description": "SD " + INERT, "title": "ItemTitle",
                      "properties": {"name": {"type": "string", "description": "FD " + INERT, "default": "nm", "example": "ex2"},
-                                    "kind": {"type": "string", "enum": ["alpha", "beta"], "description": "ED " + INERT},
+                                    "kind": {"type": "string", "enum": ["alpha", "beta"], "description": "ED " + INERT, "default": "alpha"},
+                                    "tier": {"allOf": [{"$ref": "#/components/schemas/Kind"}], "default": "one"},
                                     "fixed": {"type": "string", "const": "cv"},
                                     "code": {"type": "string", "pattern": "^abc$"}}},
             "Kind": {"type": "string", "enum": ["one", "two"]},
@@ -116,6 +121,10 @@ POSITIONS = [
     P(["components", "schemas", "NewItem", "properties", "size", "default"], kind="numtext"),
     P(["components", "schemas", "NewItem", "properties", "ratio", "default"], kind="numtext"),
     P(["components", "schemas", "NewItem", "properties", "on", "default"], kind="numtext"),
+    P(["paths", "/items/{id}", "put", "responses", "200", "description"]),
+    # string defaults of enum-typed members (inline enum, referenced enum): also with the other declared value as the text
+    P(["components", "schemas", "Item", "properties", "kind", "default"], kind="enumdefault"),
+    P(["components", "schemas", "Item", "properties", "tier", "default"], kind="enumdefault"),
     P(["servers", 0, "url"], wrap=lambda t: "https://example.com/" + t),
     P(["components", "schemas", "Item", "properties", "kind", "enum", 1], kind="ident"),
     P(["components", "schemas", "Kind", "enum", 0], kind="ident"),
@@ -150,7 +159,7 @@ def main(tier, seed, replay=None):
     POS_UNIQ = []
     for k, pos in enumerate(POSITIONS):
         POS_UNIQ.append((pos[0] + ("#raw" if pos[2] == "rawpattern" else ""),) + tuple(pos[1:]))
-    jobs = [("inert", None, m) for m in modes] + [(pos[0], pl, m) for pos in POS_UNIQ for pl in (PATTERN_PAYLOADS if pos[2] == "rawpattern" else NUMTEXT_PAYLOADS if pos[2] == "numtext" else payloads + (["v2/", "a//", "x*/"] if pos[0].startswith("servers") else [])) for m in modes]
+    jobs = [("inert", None, m) for m in modes] + [(pos[0], pl, m) for pos in POS_UNIQ for pl in (PATTERN_PAYLOADS if pos[2] == "rawpattern" else NUMTEXT_PAYLOADS if pos[2] == "numtext" else payloads + ["beta", "two", "Beta"] if pos[2] == "enumdefault" else payloads + (["v2/", "a//", "x*/"] if pos[0].startswith("servers") else [])) for m in modes]
     if replay:
         r = json.load(open(replay))
         jobs = [("inert", None, r["mode"]), (r["position"], r["payload"], r["mode"])]
@@ -193,7 +202,7 @@ def main(tier, seed, replay=None):
         if bad:
             viol.append((posname, pl, mode, f"payload {pl[:30]!r} at {posname}: emitted file does not lex/parse: {bad[0]['error'][:200]}"))
             continue
-        key = "skeleton" if kind in ("text", "rawpattern", "numtext") else "skeleton_noident"
+        key = "skeleton" if kind in ("text", "rawpattern", "numtext", "enumdefault") else "skeleton_noident"
         for a, b in zip(inert[mode], sks):
             if a[key] != b[key]:
                 # first difference
@@ -213,7 +222,9 @@ def main(tier, seed, replay=None):
             # recoverability: wherever the inert marker was a literal/doc, the payload must be found byte-for-byte
             inert_lits = [l for s in inert[mode] for l in s["literals"]]
             lits = [l for s in sks for l in s["literals"]]
-            if kind in ("text", "rawpattern") and posname not in ("components/schemas/Item/properties/code/pattern", "components/schemas/NewItem/properties/code/pattern"):
+            # (replaceItem shares getItem's response enum: the description of the merged-away copy is legitimately absent)
+            if kind in ("text", "rawpattern") and posname not in ("components/schemas/Item/properties/code/pattern", "components/schemas/NewItem/properties/code/pattern",
+                                                                   "paths//items/{id}/put/responses/200/description"):
                 had = any(INERT in l for l in inert_lits) if posname.endswith(("description", "summary", "title")) else True
                 want = pl
                 found = any(want in l for l in lits) or any(want.replace("\r\n", "\n") in l for l in lits)
